@@ -185,9 +185,10 @@ type executor struct {
 	caseID int
 	seen   map[uint64]struct{}
 	// allocation accounting
-	batch     []batchCase
-	lastAlloc uint64
-	ms        runtime.MemStats
+	batch      []batchCase
+	batchBytes int
+	lastAlloc  uint64
+	ms         runtime.MemStats
 
 	curSize       int // size of the input / encoding of the case being executed (the smallest failing one is reported)
 	lastPairRoot  *root
@@ -327,8 +328,8 @@ func guard(f func()) (c caught) {
 }
 
 func hexOf(b []byte) string {
-	if len(b) > 600 {
-		return hex.EncodeToString(b[:600]) + fmt.Sprintf("...(%d bytes)", len(b))
+	if len(b) > 4096 {
+		return hex.EncodeToString(b[:4096]) + fmt.Sprintf("...(%d bytes)", len(b))
 	}
 	return hex.EncodeToString(b)
 }
@@ -462,9 +463,10 @@ func (x *executor) flushBatch() {
 					map[string]interface{}{"phase": "hostile", "type": bc.root.Name, "entry": bc.entry, "mutation": bc.class, "input": hexOf(bc.in), "allocated": used})
 			}
 		}
-		x.res.Counters["alloc_batches_inspected"]++
+		x.res.Counters["diag_alloc_batches_inspected"]++
 	}
 	x.batch = x.batch[:0]
+	x.batchBytes = 0
 	x.lastAlloc = x.totalAlloc()
 }
 
@@ -496,7 +498,8 @@ func (x *executor) hostile(r *root, ep string, fn decodeFn, class string, in []b
 	x.res.Counters["hostile:"+class]++
 	x.pairCount(r, ep)
 	x.batch = append(x.batch, batchCase{r, ep, fn, in, class})
-	if len(x.batch) >= 32 {
+	x.batchBytes += len(in)
+	if len(x.batch) >= 32 || x.batchBytes >= 96<<10 {
 		x.flushBatch()
 	}
 	switch {
